@@ -301,3 +301,62 @@ fn replay_chunk(cases: &[Value], rep: &mut Report) {
 pub fn replay(cases: &[Value], rep: &mut Report) {
   par_replay(cases, rep, replay_chunk);
 }
+
+/// Direction V: long random histories on live issuers (CoreDocument and IotaDocument alternately), one event per call at
+/// its return; validated against spec/LifecycleTrace.tla.
+pub fn record(seed: u64, n: u64, out: &mut TraceOut) {
+  use rand::Rng;
+  let mut r = rng(seed);
+  let frags = ["a", "b", "c", "d"];
+  let mut left = n;
+  let mut round = 0usize;
+  while left > 0 {
+    let iota = round % 2 == 0;
+    round += 1;
+    let mut iss = match guarded(|| new_issuer(iota)) {
+      Ok(i) => i,
+      Err(e) => {
+        out.event(json!({"op": {"name": "reset"}, "res": {"ok": false, "failure": e}}));
+        left = left.saturating_sub(50);
+        continue;
+      }
+    };
+    out.event(json!({"op": {"name": "reset"}, "res": {"ok": true}, "document": if iota { "IotaDocument" } else { "CoreDocument" }}));
+    let seg = left.min(r.gen_range(60..240));
+    left -= seg;
+    let mut epoch = 0i64;
+    for _ in 0..seg {
+      let f = frags[r.gen_range(0..frags.len())];
+      let i = r.gen_range(1..=3);
+      let ntok = iss.tokens.len() as i64;
+      let op = match r.gen_range(0..100) {
+        0..=14 => json!({"name": "generate", "f": f, "scope": if r.gen_bool(0.6) { "vm" } else { "emb" }}),
+        15..=24 => json!({"name": "purge", "f": f}),
+        25..=31 => json!({"name": "attach", "f": f}),
+        32..=36 => json!({"name": "detach", "f": f}),
+        37..=51 => json!({"name": "issue", "f": f, "i": i}),
+        52..=59 => json!({"name": "revoke", "i": i}),
+        60..=65 => json!({"name": "unrevoke", "i": i}),
+        66..=70 if iota => {
+          epoch = 1 - epoch;
+          json!({"name": "rebase", "to": epoch})
+        }
+        _ if ntok > 0 => {
+          let sc = ["none", "assertionMethod", "vm"][r.gen_range(0..3)];
+          let tk = r.gen_range(1..=ntok);
+          json!({"name": "validate", "token": tk, "scope": sc})
+        }
+        _ => json!({"name": "issue", "f": f, "i": i}),
+      };
+      let res = match guarded(|| iss.step(&op)) {
+        Ok(v) => v,
+        Err(p) => json!({"ok": false, "panic": p}),
+      };
+      let res = match iss.consistent() {
+        Ok(()) => res,
+        Err(x) => json!({"ok": res["ok"], "inconsistent_state": x}),
+      };
+      out.event(json!({"op": op, "res": res}));
+    }
+  }
+}
